@@ -207,3 +207,52 @@ Definition accepts (c : c08_trace_case) : bool :=
   | Some s => all2 outcome_matches (calls s) obs && match table s, lft with [], [] => true | _, _ => false end
   | None => false
   end.
+
+(* ---- several adapters (connections) of one process: a product of table machines; a label is tagged with the adapter it
+   belongs to; a packet arriving on a connection is looked up in that adapter's table only.  Request ids come from one
+   process-wide generator: a registration is good when the id is non-zero and no outstanding call on ANY adapter
+   holds it. ---- *)
+Definition mstep (ms : list state) (al : nat * label) : option (list state) :=
+  match nth_error ms (fst al) with
+  | Some s => match step s (snd al) with Some s' => Some (upd (fst al) s' ms) | None => None end
+  | None => None
+  end.
+
+Definition mgoodb (ms : list state) (al : nat * label) : bool :=
+  match snd al with
+  | LRegister id _ => negb (id =? 0) && forallb (fun s => id_free id (calls s)) ms
+  | _ => true
+  end.
+
+Fixpoint mrun (ms : list state) (ls : list (nat * label)) : option (list state) :=
+  match ls with
+  | [] => Some ms
+  | l :: r => match mstep ms l with Some ms' => mrun ms' r | None => None end
+  end.
+
+Fixpoint mgood_run (ms : list state) (ls : list (nat * label)) : bool :=
+  match ls with
+  | [] => true
+  | l :: r => mgoodb ms l && match mstep ms l with Some ms' => mgood_run ms' r | None => false end
+  end.
+
+(* observed: number of connections; tagged labels; per connection, per call (registration order) the payload the caller
+   got; table snapshots (number of labels before it, ids found in the tables of the adapters the accessor sees); ids left
+   at the end *)
+Definition c08_mtrace_case := (nat * list (nat * label) * list (list (option N)) * list (nat * list Z) * list Z)%type.
+
+Definition msnap_ok (n : nat) (ls : list (nat * label)) (sn : nat * list Z) : bool :=
+  match mrun (repeat init n) (firstn (fst sn) ls) with
+  | Some ms => forallb (fun id => existsb (fun s => match lookup id (table s) with Some _ => true | None => false end) ms) (snd sn)
+  | None => false
+  end.
+
+Definition maccepts (c : c08_mtrace_case) : bool :=
+  let '(n, ls, obs, snaps, lft) := c in
+  mgood_run (repeat init n) ls && forallb (msnap_ok n ls) snaps &&
+  match mrun (repeat init n) ls with
+  | Some ms => all2 (fun s o => all2 outcome_matches (calls s) o) ms obs
+               && forallb (fun s => match table s with [] => true | _ => false end) ms
+               && match lft with [] => true | _ => false end
+  | None => false
+  end.
